@@ -181,6 +181,8 @@ class Unit:
                 mname, mfile = rest.split()
                 lift.expand_files = getattr(lift, 'expand_files', {})
                 lift.expand_files[mname] = mfile
+            elif d == 'pub-fields':
+                lift.pub_fields = True
             elif d == 'no-canary':
                 lift.no_canary = True
             elif d == 'derive':
@@ -251,7 +253,7 @@ class Unit:
                     for text, oline in clines:
                         emit(text, None)
                     canary_range = (cfirst, len(self.gen_lines))
-                if info['kind'] == 'fn':
+                if info['kind'] in ('fn', 'impl') and (info['kind'] == 'fn' or lift.props):
                     ob = Obligation(self.name, lift.name, lift.props, 'contract' if lift.spec else 'safety')
                     ob.gen_range = (first, last)
                     ob.canary_range = canary_range
@@ -267,7 +269,7 @@ class Unit:
             if re.match(r'\s*//', t):
                 continue
             if re.search(r'external_body|assume_specification|\bassume\s*\(|\badmit\s*\(|external_type_specification|'
-                         r'verifier::external\b|accept_recursive_types|reject_recursive_types', t):
+                         r'verifier::external\b|accept_recursive_types|reject_recursive_types|^\s*impl\b.*\b(PartialEq|PartialOrd)SpecImpl\b', t):
                 shown = t.strip()
                 if re.match(r'\s*#\[verifier::[a-z_]+\]\s*$', t):
                     for t2, _ in self.gen_lines[no:no + 3]:
